@@ -255,6 +255,8 @@ pub mod boundary {
         pub fn get(&self, idx: usize) -> Option<T> {
             // The element is cloned while we hold the lock: a pointer into
             // the buffer is only valid until another thread pushes.
+            #[cfg(feature = "verif-hooks")]
+            crate::verif::before_list_lock(&self.inner.0);
             let guard = self.inner.0.lock().unwrap();
             let ptr = guard.get(idx)?;
 
